@@ -502,6 +502,8 @@ class ArmiObject(metaclass=CompositeModelType):
         other : ArmiObject
             The object to copy params from
         """
+        if self.p.readOnly:
+            raise RuntimeError(f"Cannot overwrite the read-only parameters of {self}.")
         self.p = other.p.__class__()
         for p, val in other.p.items():
             if p == "serialNum":
